@@ -168,6 +168,8 @@ pub fn dfs(base: &SchedCase, cap: u64, sink: &mut Sink, judge: &dyn Fn(&SchedCas
 enum Blk {
     /// complete (or capped) enumeration of one program x policy
     Enum { chunk: usize, gzip: Option<u32>, prog: Vec<POp>, policy: WakerPolicy, cap: u64, bound: u32 },
+    /// like Enum, with the consumer dropping the body after `drop_after` polls
+    EnumDrop { chunk: usize, gzip: Option<u32>, prog: Vec<POp>, drop_after: u32, cap: u64 },
     Random { chunk: usize, gzip: Option<u32>, n: u64, len: (usize, usize), salt: u64 },
     Stress { chunk: usize, gzip: Option<u32>, n: u64, salt: u64 },
 }
@@ -242,6 +244,14 @@ fn run_blk(ctx: &Ctx, blk: &Blk, tag: u64, sink: &mut Sink, judge: &dyn Fn(&Sche
             sink.add("schedules", n);
             let key = format!("programs_{}ops_{}", prog.len(), if complete && *bound == u32::MAX { "enumerated_completely" } else if complete { "enumerated_completely_within_preemption_bound" } else { "capped" });
             sink.count(&key);
+        }
+        Blk::EnumDrop { chunk, gzip, prog, drop_after, cap } => {
+            let mut base = SchedCase::new(*chunk, *gzip, prog.clone(), WakerPolicy::Same);
+            base.drop_body_after = Some(*drop_after);
+            base.sample_hints = false;
+            let (n, _) = dfs(&base, *cap, sink, judge);
+            sink.add("schedules", n);
+            sink.add("body_drop_enumerated_schedules", n);
         }
         Blk::Random { chunk, gzip, n, len, salt } => {
             let mut rng = Rng::from_parts(ctx.seed, &[tag, 1, *salt]);
@@ -401,8 +411,15 @@ pub fn c11_sched_judge(c: &SchedCase, o: &SchedObs, sink: &mut Sink) -> Verdict 
                 _ => {}
             }
         }
-        // the decisive clause (a chunk-completing write / publishing flush that *began* after the drop
-        // returned Ok) needs begin events: judged by the sequential part, where order is total
+        // a chunk-completing write / publishing flush that *began* after the drop had completed
+        // must not succeed (an earlier error makes every later operation fail anyway)
+        for e in &o.events {
+            if let Ev3::OpDetail { i, ok: true, began_after_body_drop: true, hands_over: true } = e {
+                if aborted_at.is_none_or(|a| *i < a) {
+                    return Verdict::viol(format!("ok-after-body-drop|{}", mode), format!("operation {} ({:?}) began after the consumer had dropped the body, had data to hand over, and returned Ok", i, c.prog[*i]));
+                }
+            }
+        }
         sink.count("body_drop_schedules");
     }
     Verdict::Ok
@@ -422,6 +439,12 @@ fn c11_sched_blocks(ctx: &Ctx) -> Vec<Blk> {
     }
     for prog in programs(2, 2).into_iter().filter(|p| p.contains(&POp::Abort)) {
         b.push(Blk::Enum { chunk: 2, gzip: Some(1), prog, policy: WakerPolicy::Fresh, cap: if thorough(ctx) { 3000 } else { 300 }, bound: u32::MAX });
+    }
+    // consumer drops the body after k polls, all schedules (capped): programs without abort
+    for prog in programs(2, 2).into_iter().filter(|p| !p.contains(&POp::Abort) && !p.is_empty()) {
+        for k in 0..3u32 {
+            b.push(Blk::EnumDrop { chunk: 2, gzip: if k == 2 { Some(1) } else { None }, prog: prog.clone(), drop_after: k, cap: if thorough(ctx) { 2000 } else { 150 } });
+        }
     }
     for k in 0..(if thorough(ctx) { 32 } else { 8 }) {
         b.push(Blk::Random { chunk: [2usize, 1, 4096][k % 3], gzip: if k % 4 == 3 { Some(1) } else { None }, n: if thorough(ctx) { 1500 } else { 250 }, len: (2, 6), salt: 1000 + k as u64 });
@@ -493,7 +516,7 @@ impl Prop for C11 {
         }
     }
     fn floors(&self, _: &Ctx) -> Vec<(&'static str, u64)> {
-        vec![("abort_histories", 1000), ("body_drop_histories", 1000), ("abort_schedules", 1000), ("body_drop_schedules", 20), ("memory_release_checked", 3), ("writer_told_body_gone", 1000)]
+        vec![("abort_histories", 1000), ("body_drop_histories", 1000), ("abort_schedules", 1000), ("body_drop_schedules", 1000), ("body_drop_enumerated_schedules", 1000), ("memory_release_checked", 3), ("writer_told_body_gone", 1000)]
     }
     fn assumptions(&self) -> Vec<String> {
         vec![
